@@ -125,6 +125,17 @@ func toIdentRefList(base []*meta.Identity, v interface{}) (val.IdentRefList, err
 
 func toEnumList(src val.EnumList, v interface{}) (val.EnumList, error) {
 	switch x := v.(type) {
+	case val.EnumList:
+		return toEnumList(src, []val.Enum(x))
+	case []val.Enum:
+		l := make([]val.Enum, len(x))
+		var err error
+		for i := 0; i < len(x); i++ {
+			if l[i], err = toEnum(src, x[i]); err != nil {
+				return nil, err
+			}
+		}
+		return l, nil
 	case []string:
 		l := make([]val.Enum, len(x))
 		var err error
@@ -153,7 +164,7 @@ func toEnumList(src val.EnumList, v interface{}) (val.EnumList, error) {
 		}
 		return l, nil
 	default:
-		if e, err := toEnum(src, v); err != nil {
+		if e, err := toEnum(src, v); err == nil {
 			return val.EnumList([]val.Enum{e}), nil
 		}
 	}
